@@ -376,6 +376,31 @@ def pick_recordings(chk, n, small=False):
     return picked + rest[:max(0, n - len(picked))]
 
 
+def part_boundaries(chk, drv):
+    """every length around the limits of the packed form (one byte below 255, 0xFF + 3 bytes from 255 on, the 16-bit boundary inside
+    the 3-byte form), for each variable-length kind, alone and inside an array and a dict -- on every run, not by chance"""
+    trees, vals = [], []
+    for kind in ('string', 'blob', 'python'):
+        for n in gt.BOUNDARY_LENGTHS + [70000]:
+            raw = (bytes((7 * i + n) & 0x7f or 0x41 for i in range(n)) if kind == 'string' else bytes((i * 31 + n) & 0xff for i in range(n)))
+            v = {'s': raw.hex()} if kind == 'string' else {'b': raw.hex()}
+            t = {'k': kind}
+            shapes = [(t, v)]
+            if n in (254, 255, 65535, 65536):
+                shapes += [({'k': 'array', 'of': t, 'size': None}, [v, v]),
+                           ({'k': 'dict', 'fields': [['a', t], ['z', {'k': 'int', 'size': 2, 'signed': False}]], 'allowNone': False}, {'d': [['a', v], ['z', 513]]})]
+            for tt, vv in shapes:
+                trees.append(tt)
+                vals.append(vv)
+    ad = codec.AliasDir('c03b')
+    try:
+        objs = ad.load(trees)
+    finally:
+        ad.cleanup()
+    check_cases(chk, drv, [(strip(t), o, v, 1) for t, o, v in zip(trees, objs, vals)], 'boundary')
+    chk.dist('boundary-lengths', len(trees))
+
+
 def run(chk, drv):
     quick = chk.tier == 'quick'
     chk.cov['rule'] = ('(type tree, value, header size) triples: generated from the alias/.def grammar (depth<=6, width<=8, alias chains) and from every '
@@ -395,6 +420,7 @@ def run(chk, drv):
                     finally:
                         ad.cleanup()
                     check_cases(chk, drv, [(strip(c['ty']), obj, c['val'], c['h'])], 'corpus')
+    part_boundaries(chk, drv)
     part_generated(chk, drv, 400 if quick else 6000, 4 if quick else 8)
     part_bundled(chk, drv, 1 if quick else 4, max_types=1500 if quick else None)
     part_recordings(chk, pick_recordings(chk, 5 if quick else 1000), limit=40000 if quick else None)
